@@ -66,16 +66,23 @@ def isKnownOde (s : St) (v : Nat) : Bool := (s.v v).idx.isSome
 def isNonConstant (s : St) (v : Nat) : Bool :=
   (s.v v).ext || ((s.v v).ty ≠ .unknown && (s.v v).ty ≠ .initialised && (s.v v).ty ≠ .ctc && (s.v v).ty ≠ .cvc)
 
+/-- `setVariable(localVariable)` and the default type of a variable an equation is found to compute -/
+def tag (comp : Nat) (ctc cvc : Bool) (s : St) (v : Nat) : St :=
+  let s := s.setV v fun x => { x with rep := comp }
+  if (s.v v).ty = .unknown then s.setV v fun x => { x with ty := if ctc then .ctc else if cvc then .cvc else .algebraic } else s
+
+/-- hand out the next state / variable index -/
+def bump (s : St) (v : Nat) (isState : Bool) : St :=
+  if isState then { s.setV v fun x => { x with idx := some s.stateIndex } with stateIndex := s.stateIndex + 1 }
+  else { s.setV v fun x => { x with idx := some s.variableIndex } with variableIndex := s.variableIndex + 1 }
+
 /-- assign type and index to the variables an equation is found to compute; `none` = the early `return false` -/
 def assign (comp : Nat) (ctc cvc : Bool) : List Nat → St → List Nat → Option (St × List Nat)
   | [], s, acc => some (s, acc)
   | v :: rest, s, acc =>
-    let s := s.setV v fun x => { x with rep := comp }
-    let s := if (s.v v).ty = .unknown then s.setV v fun x => { x with ty := if ctc then .ctc else if cvc then .cvc else .algebraic } else s
-    match (s.v v).ty with
-    | .state => assign comp ctc cvc rest ({ s.setV v fun x => { x with idx := some s.stateIndex } with stateIndex := s.stateIndex + 1 }) (acc ++ [v])
-    | .ctc | .cvc | .initAlg | .algebraic =>
-      assign comp ctc cvc rest ({ s.setV v fun x => { x with idx := some s.variableIndex } with variableIndex := s.variableIndex + 1 }) (acc ++ [v])
+    match ((tag comp ctc cvc s v).v v).ty with
+    | .state => assign comp ctc cvc rest (bump (tag comp ctc cvc s v) v true) (acc ++ [v])
+    | .ctc | .cvc | .initAlg | .algebraic => assign comp ctc cvc rest (bump (tag comp ctc cvc s v) v false) (acc ++ [v])
     | _ => none
 
 /-- first half of `check`: constant flags, dependencies, untracking of known variables, the initialised variables of a
